@@ -577,3 +577,25 @@ for prop in ("C01", "C02", "C03", "C04", "C09", "C10"):
             continue
         _reg(prop, "order_" + nm, f, _VERD[prop], tier="thorough", judge_hang=(prop in ("C02", "C09", "C10")), budget=2400,
              param_orders=True, extra_syms=("declared or reversed parameter order of every node",))
+
+
+# ------------------------------------------------------------------------------------ templates added after the third unseen round
+ROUND3 = {
+    "C02": [("rec_nested_pattern", C.rec_nested_pattern), ("oneof_candidate_also_input", C.oneof_candidate_also_input),
+            ("two_chains", C.two_chains), ("rec_nested_in_oneof", C.rec_nested_in_oneof),
+            ("rec_in_oneof_chain", C.rec_in_oneof_chain)],
+    "C05": [("two_chains", C.two_chains), ("rec_nested_in_oneof", C.rec_nested_in_oneof)],
+    "C03": [("oneof_candidate_also_input", C.oneof_candidate_also_input), ("rec_with_switch_inner", C.rec_with_switch_inner)],
+    "C04": [("rec_with_oneof", C.rec_with_oneof), ("rec_nested_pattern", C.rec_nested_pattern)],
+    "C09": [("rec_with_switch_inner", C.rec_with_switch_inner)],
+    "C10": [("oneof_candidate_also_input", C.oneof_candidate_also_input), ("rec_nested_in_oneof", C.rec_nested_in_oneof),
+            ("rec_in_oneof_chain", C.rec_in_oneof_chain)],
+    "C11": [("rec_nested_pattern", C.rec_nested_pattern), ("rec_with_switch_inner", C.rec_with_switch_inner),
+            ("rec_nested_in_oneof", C.rec_nested_in_oneof), ("rec_in_oneof_chain", C.rec_in_oneof_chain)],
+}
+for prop, specs in ROUND3.items():
+    for nm, f in specs:
+        _reg(prop, "r3_" + nm, f, _VERD[prop], tier="quick", judge_hang=(prop in ("C02", "C09", "C10", "C11")), budget=400,
+             param_orders=(nm == "oneof_candidate_also_input"))
+_reg("C14", "slow_collab_rhombus_bc", lambda: C.rhombus(True), _c14, tier="quick", cfg_fn=_slow(True, False), budget=400,
+     beh_kw={"dur_nodes": {"B", "C"}}, extra_syms=SLOW_SYMS + ("durations of B and C",))
